@@ -157,7 +157,7 @@ fn size_of(c: &Circuit) -> usize {
 
 pub fn minimise(c: &Circuit, prop: &str, inv: &str) -> Circuit {
     let judge = judge_of(prop);
-    let fails = |x: &Circuit| target(&judge_circuit(x, judge, false), prop, Some(inv)).is_some();
+    let fails = |x: &Circuit| target(&simcore::par::isolated(|| judge_circuit(x, judge, false)), prop, Some(inv)).is_some();
     let mut cur = c.clone();
     let mut budget = 600usize;
     loop {
@@ -331,6 +331,7 @@ pub fn c14_cases(c: &Corpus, quick: bool) -> Vec<Circuit> {
         enc_hints,
         digest_steps: vec![],
         reorder_seed: 0,
+        tamper_bits: false,
     };
     let _ = quick;
     // decode, directly and through a lazily evaluated variable
@@ -406,6 +407,10 @@ pub fn c14_cases(c: &Corpus, quick: bool) -> Vec<Circuit> {
     }
     // witness allocation: coordinate offers x encoding hints x the site's substitution set
     let mut offers: Vec<Offer> = vec![Offer::T2, Offer::Zero00];
+    for e in elems.iter().skip(2).take(3) {
+        offers.push(Offer::Scaled(e.clone(), 2));
+        offers.push(Offer::Scaled(e.clone(), 7));
+    }
     offers.push(Offer::Raw {
         x: le32(&num_bigint::BigUint::from(3u32)),
         y: le32(&num_bigint::BigUint::from(5u32)),
@@ -428,7 +433,7 @@ pub fn c14_cases(c: &Corpus, quick: bool) -> Vec<Circuit> {
     for o in &offers {
         for es in &enc_subs {
             let partner = match o {
-                Offer::SameRatioSibling(e) | Offer::PlusT4(e) | Offer::OtherCoset(e) => Some(EncSub::EncodeOf(e.clone())),
+                Offer::SameRatioSibling(e) | Offer::PlusT4(e) | Offer::OtherCoset(e) | Offer::Scaled(e, _) => Some(EncSub::EncodeOf(e.clone())),
                 _ => None,
             };
             let mut list = vec![es.clone()];
@@ -445,6 +450,60 @@ pub fn c14_cases(c: &Corpus, quick: bool) -> Vec<Circuit> {
                     ));
                 }
             }
+        }
+    }
+    // witness-tampering prover: honest hints, then every witnessed bit decomposition rewritten to v + q
+    {
+        use num_bigint::BigUint;
+        let f = simcore::field::fq();
+        let room = (BigUint::from(1u32) << 253) - &f.p; // values below this have v + q < 2^253
+        let mut neg: Vec<Hex> = Vec::new();
+        for v in c.valid.iter().skip(1) {
+            let s = f.neg(&simcore::field::Fld::int_le(v)); // q - s: odd, i.e. negative
+            if s < room {
+                neg.push(le32(&s));
+            }
+            if neg.len() >= if quick { 4 } else { 12 } {
+                break;
+            }
+        }
+        neg.push(le32(&BigUint::from(1u32)));
+        neg.push(le32(&BigUint::from(3u32)));
+        let t = |ops: Vec<R1Op>| Circuit {
+            ops,
+            hints: vec![],
+            enc_hints: vec![],
+            digest_steps: vec![],
+            reorder_seed: 0,
+            tamper_bits: true,
+        };
+        for s in &neg {
+            out.push(t(vec![
+                R1Op::AllocFqVar { mode: Mode::Witness, v: s.clone() },
+                R1Op::Decompress(0),
+            ]));
+            out.push(t(vec![R1Op::AllocFq { mode: Mode::Input, s: s.clone() }, R1Op::Value(0)]));
+        }
+        for x in [1u32, 2, 3, 4, 7, 8] {
+            for g in 0..3 {
+                out.push(t(vec![
+                    R1Op::AllocFqVar { mode: Mode::Witness, v: le32(&BigUint::from(x)) },
+                    match g {
+                        0 => R1Op::IsNegative(0),
+                        1 => R1Op::IsNonnegative(0),
+                        _ => R1Op::Abs(0),
+                    },
+                ]));
+            }
+        }
+        for v in c.valid.iter().skip(1).take(if quick { 2 } else { 6 }) {
+            out.push(t(vec![R1Op::AllocFqVar { mode: Mode::Witness, v: hex(v) }, R1Op::Decompress(0)]));
+        }
+        for x in [0u32, 1, 5] {
+            out.push(t(vec![
+                R1Op::AllocFqVar { mode: Mode::Witness, v: le32(&BigUint::from(x)) },
+                R1Op::Elligator(0),
+            ]));
         }
     }
     out
@@ -595,7 +654,7 @@ pub fn run_check(prop: &str, opts: &Opts) -> i32 {
         simcore::par::run_batch_guarded(
             n_enum,
             workers,
-            |i| judge_circuit(&cr[i as usize], judge, false),
+            |i| simcore::par::isolated(|| judge_circuit(&cr[i as usize], judge, false)),
             &mut acc,
             |acc, i, o| absorb(acc, prop, &known, format!("enumeration#{}", i), &cr[i as usize], o),
             Some((HANG_LIMIT, &on_hang)),
@@ -638,7 +697,7 @@ pub fn run_check(prop: &str, opts: &Opts) -> i32 {
                     } else {
                         gen::history(&mut rng, cr)
                     };
-                    let o = judge_circuit(&c, judge, false);
+                    let o = simcore::par::isolated(|| judge_circuit(&c, judge, false));
                     (c, o)
                 },
                 &mut acc,
@@ -663,7 +722,7 @@ pub fn run_check(prop: &str, opts: &Opts) -> i32 {
         violations = 1;
         println!("violation found at {}: {} {} :: {}", origin, v.inv, v.key, v.detail);
         let min = minimise(&c, prop, v.inv);
-        let o = judge_circuit(&min, judge, true);
+        let o = simcore::par::isolated(|| judge_circuit(&min, judge, true));
         let mv = target(&o, prop, Some(v.inv)).cloned().unwrap_or(v.clone());
         let rp = Replay {
             engine: "r1csim".into(),
